@@ -1,6 +1,7 @@
 """C12 — serialization round trip for every serializable value."""
 import json
 import os
+import re
 import stat
 import vcheck
 
@@ -16,6 +17,65 @@ def load_open_findings(ctx):
                 ctx.known.append(k)
 
 
+# ---- coverage round: every Serializable / Deserializable impl of utils/core/src/serde/mod.rs must be driven ----
+READERS = ("SliceReader", "Cursor", "ReadAdapter")
+CLASSES = ("complete", "trailing", "truncated")
+# the encoding of () is empty: it has no proper prefix
+NO_CELL = {("unit", "truncated")}
+
+
+def impl_tag(ty):
+    """cell name (as used by harness/src/bin/c12.rs) of the type of an `impl .. for <ty>` header; None = not known"""
+    ty = re.sub(r"\s+", "", ty)
+    if ty == "()":
+        return "unit"
+    if ty.startswith("(") and ty.endswith(")"):
+        return "tuple%d" % len([x for x in ty[1:-1].split(",") if x])
+    if ty in ("u8", "u16", "u32", "u64", "u128", "usize", "str"):
+        return ty
+    if ty == "String":
+        return "string"
+    if ty.startswith("&"):
+        return "ref"
+    if re.fullmatch(r"\[\w+;\w+\]", ty):
+        return "array"
+    if re.fullmatch(r"\[\w+\]", ty):
+        return "slice"
+    for pre, tag in (("Option<", "option"), ("Vec<", "vec"), ("BTreeMap<", "map"), ("BTreeSet<", "set")):
+        if ty.startswith(pre):
+            return tag
+    return None
+
+
+def serde_impls():
+    """(trait, type, tag) of every impl header of serde/mod.rs, read from the source of the tree under check"""
+    src = open(os.path.join(vcheck.REPO, "utils", "core", "src", "serde", "mod.rs")).read()
+    out = []
+    for m in re.finditer(r"^impl\s*(?:<[^>]*>)?\s*(Serializable|Deserializable)\s+for\s+(.+?)\s*(?:\{|where|$)", src, re.M):
+        out.append((m.group(1), m.group(2).strip(), impl_tag(m.group(2))))
+    return out
+
+
+def check_cells(ctx, profile, corr_cells, fals_cells):
+    impls = serde_impls()
+    unknown = sorted({f"{tr} for {ty}" for tr, ty, tag in impls if tag is None})
+    ctx.ob(f"serde-impls-known:{profile}", len(impls) >= 40 and not unknown,
+           f"{len(impls)} impl headers found in serde/mod.rs; impls the generator does not instantiate: {unknown}")
+    # bool has no impl of its own (ByteWriter::write_bool / ByteReader::read_bool), it is required all the same
+    tags = sorted({tag for _, _, tag in impls if tag} | {"bool"})
+    miss_c = [f"{t}|{c}" for t in tags if t != "ref" for c in CLASSES if (t, c) not in NO_CELL and corr_cells.get(f"{t}|{c}", 0) == 0]
+    ctx.ob(f"corr-cells-sampled:{profile}", bool(corr_cells) and not miss_c,
+           "impl x input class never compared with the model (each case runs on all three readers): " + ", ".join(miss_c))
+    miss_f = [f"{t}|{r}|{c}" for t in tags for r in READERS for c in CLASSES
+              if (t, c) not in NO_CELL and fals_cells.get(f"{t}|{r}|{c}", 0) == 0]
+    ctx.ob(f"falsifier-cells-sampled:{profile}", bool(fals_cells) and not miss_f,
+           "impl x reader x input class never sampled by the falsifier: " + ", ".join(miss_f[:40]))
+    ctx.notes.setdefault("serde_impl_matrix", {})[profile] = {
+        "impl_headers_in_source": len(impls), "tags": tags, "readers": list(READERS), "classes": list(CLASSES),
+        "corr_cells": len(corr_cells), "falsifier_cells": len(fals_cells),
+        "min_falsifier_cell": min(fals_cells.values()) if fals_cells else 0}
+
+
 def run(ctx):
     quick = ctx.tier == "quick"
     load_open_findings(ctx)
@@ -26,14 +86,18 @@ def run(ctx):
                 "maximal FRI remainder, real FRI proofs, composed Proofs); dec = those bytes exact / with trailing bytes / every or "
                 "sampled truncation / single-byte mutations biased to the header, plus byte sweeps 0..255 of every header position of "
                 "ProofOptions and TraceInfo, hostile lengths (2^60 elements), non-canonical field elements, malformed UTF-8, "
-                "unsorted/duplicate map keys, random strings.  falsifier (model-independent): read_from(to_bytes(v) ++ junk) == v "
-                "leaving exactly junk, for SliceReader, Cursor, ReadAdapter(slice, chunked); distinct = distinct case lines")
+                "unsorted/duplicate map keys, random strings; every dec case runs on SliceReader, std::io::Cursor AND ReadAdapter "
+                "(chunked source) and must give one common result.  falsifier (model-independent): read_from(to_bytes(v) ++ junk) == v "
+                "leaving exactly junk, for SliceReader, Cursor, ReadAdapter(slice, chunked); plus the serde/mod.rs matrix: every "
+                "Serializable/Deserializable impl found in the source x three readers x {complete, trailing bytes, every proper "
+                "prefix -> Err(UnexpectedEOF)} with check_eor/has_more_bytes observed at the end; distinct = distinct case lines")
     ctx.assumptions += [
         "64-bit target (usize = u64); debug profile semantics for overflow checks (release differences are noted in notes/C12.design.md)",
         "a field element is identified with its canonical residue as_int() (equality of elements = equality of residues: C07)",
         "UTF-8 validity is an oracle parameter of the String codec (instantiated in the driver by the Unicode table 3-7 automaton)",
         "BTreeMap/BTreeSet::from_iter = successive insertion, last entry wins (std semantics), keys compared by a strict order",
-        "SliceReader and Cursor implement the same byte-source semantics (checked by the falsifier on every value); ReadAdapter is C13",
+        "the model's byte source is the list semantics shared by SliceReader, Cursor and ReadAdapter (C13 proves the equivalences; here "
+        "every decoding case of the correspondence and of the falsifier matrix is run on all three and must agree)",
     ]
     # regenerate the vint64 arithmetic and the limit constants / validation code from the Rust source; the equalities
     # hand model = generated terms are theorems (Proofs/CodecGen.v, C12_gen_* in Props/C12.v)
@@ -60,11 +124,16 @@ def run(ctx):
             ctx.notes["harness_override"] = hb
         if not hb:
             continue
+        corr_cells, fals_cells = {}, {}
         if drv:
             rc, out, _ = vcheck.sh(f"{hb} corr {ctx.seed} {n} 2>{vcheck.CACHE}/c12.dist", timeout=900)
             try:
-                ctx.notes.setdefault("input_distribution", {})[profile] = open(f"{vcheck.CACHE}/c12.dist").read().strip()[-1500:]
-            except OSError:
+                err = open(f"{vcheck.CACHE}/c12.dist").read().strip()
+                for l in err.split("\n"):
+                    if l.startswith("cells "):
+                        corr_cells = json.loads(l[6:])
+                ctx.notes.setdefault("input_distribution", {})[profile] = "\n".join(l for l in err.split("\n") if not l.startswith("cells "))[-1500:]
+            except (OSError, ValueError):
                 pass
             lines = out.split("\n")
             while lines and lines[-1] == "":
@@ -89,6 +158,11 @@ def run(ctx):
                     recs.append(json.loads(line))
                 except ValueError:
                     continue
+            elif line.startswith("#cells "):
+                try:
+                    fals_cells = json.loads(line[7:])
+                except ValueError:
+                    pass
             elif line.startswith("evaluations="):
                 seen_final = True
                 ctx.evaluations += int(line.split()[0].split("=")[1])
@@ -108,6 +182,8 @@ def run(ctx):
             nfail += 1
             ctx.add_failure(f)
         ctx.ob(f"falsifier-ran:{profile}", seen_final and rc == 0, out[-300:])
+        if drv:
+            check_cells(ctx, profile, corr_cells, fals_cells)
         ctx.notes.setdefault("falsifier", {})[profile] = {"budget": budget, "failures": nfail,
                                                           "delegated_to_C13": len(delegated)}
         if delegated:
